@@ -11,6 +11,17 @@
                       on a grid 1/N with tol ≤ 1/N (the repaired `__eq__`, tol = 1e-9).
   card_components     a SYMM line `kw t0, t1, t2` (blanks/tabs anywhere) gives the three denoted rows.
   literal_table_parsed   91 literal strings with values written by the harness' Python reference (`decide +kernel`).
+  initOp_spec / reparse_spec / applyLatt_spec   operators the library makes from operators: `centric=True` is the denoted
+                      operator followed by the inversion, `SymmetryElement(op.to_shelxl().split(','))` is `op`,
+                      `apply_latt_symm` is the operator followed by the translation of its argument
+                      (`act_inverted`, `act_shifted`, `act_ext`: stated on what the operators do to points).
+  history_refines     ∀ history (any length) of parse(centric) / given / apply_latt_symm / re-parse / observe calls on a
+                      pool of objects: the model's pool is the pool the property demands; every object has entries
+                      in {-1,0,1}.  history_roundtrip: every object of every history survives print → parse.
+                      history_eq: `==` on any two objects follows the lattice rule.  fmtFrac_ok: the hypothesis on the
+                      number formatter has an instance for all numbers (history_refines_frac: no hypothesis left).
+  eq_legacy_fails_on / eq_legacy_not_iff   the comparison before fix C10_2 (tuple rows never equal list rows) broke
+                      both the equality clause and the round trip on every operator made with `centric=True`.
 
   Outside the grammar (nothing is claimed, the harness does not generate it): two signs in a row (`1/2+-X`: Python
   raises SyntaxError from `eval`), an axis twice, two translations, exponents, numerals such as `1.5/3`.
@@ -1296,5 +1307,373 @@ theorem literal_table_parsed :
 
 /-- outside the grammar: two signs in a row are not read (Python: `eval('1./2+.')` raises SyntaxError) -/
 example : parsesTo "1/2+-X" (-1, 0, 0) (1/2) = false := by decide +kernel
+
+/-! ### operators the library makes from operators; histories on a pool of operator objects -/
+
+/-- a component of the grammar has coefficients -1, 0, 1 (every axis at most once) -/
+theorem coef_unit (a : Axis) (c : Component) (h : axisCount a c ≤ 1) : unitEntry (coef a c) = true := by
+  induction c with
+  | nil => simp [coef, unitEntry]
+  | cons i r ih =>
+    cases i with
+    | term s b =>
+      by_cases hb : b = a
+      · simp only [axisCount, hb, if_true] at h
+        have h0 : axisCount a r = 0 := by omega
+        have hc := coef_eq_zero a r h0
+        cases s <;> simp [coef, hb, hc, Sign.toInt, unitEntry]
+      · simp only [axisCount, hb, if_false, Nat.zero_add] at h
+        simpa [coef, hb] using ih h
+    | num s v =>
+      simp only [axisCount] at h
+      simpa [coef] using ih h
+
+theorem denoteRow_unit (c : Component) (h : Valid c = true) : (denoteRow c).unit = true := by
+  simp only [Valid, Bool.decide_and, Bool.and_eq_true, decide_eq_true_eq] at h
+  obtain ⟨hx, hy, hz, _, _⟩ := h
+  simp [denoteRow, Row.ofPair, denote, Row.unit, coef_unit _ _ hx, coef_unit _ _ hy, coef_unit _ _ hz]
+
+theorem denoteOp_unit (c0 c1 c2 : Component) (h0 : Valid c0 = true) (h1 : Valid c1 = true) (h2 : Valid c2 = true) :
+    (denoteOp c0 c1 c2).unit = true := by
+  simp [denoteOp, Op.unit, denoteRow_unit, h0, h1, h2]
+
+theorem timesMinusOne_eq (r : Row) : r.timesMinusOne = r.inverted := by
+  simp [Row.timesMinusOne, Row.inverted]
+
+theorem unitEntry_neg (m : Int) (h : unitEntry m = true) : unitEntry (-m) = true := by
+  simp only [unitEntry, decide_eq_true_eq] at h ⊢
+  omega
+
+theorem inverted_unit (o : Op) (h : o.unit = true) : o.inverted.unit = true := by
+  simp only [Op.unit, Row.unit, Bool.and_eq_true] at h
+  obtain ⟨⟨⟨⟨a1, a2⟩, a3⟩, ⟨⟨b1, b2⟩, b3⟩⟩, ⟨⟨c1, c2⟩, c3⟩⟩ := h
+  simp [Op.unit, Row.unit, Op.inverted, Row.inverted, unitEntry_neg, a1, a2, a3, b1, b2, b3, c1, c2, c3]
+
+theorem shifted_unit (o : Op) (v : Point) (h : o.unit = true) : (o.shifted v).unit = true := by
+  simpa [Op.unit, Row.unit, Op.shifted] using h
+
+/-- the inverted operator sends every point to the opposite of where the operator sends it -/
+theorem act_inverted (o : Op) (p : Point) :
+    o.inverted.act p = (-(o.act p).1, -(o.act p).2.1, -(o.act p).2.2) := by
+  simp only [Op.act, Op.inverted, Row.inverted]
+  refine Prod.ext ?_ (Prod.ext ?_ ?_) <;> (push_cast; ring)
+
+/-- the shifted operator sends every point to where the operator sends it, moved by `v` -/
+theorem act_shifted (o : Op) (v p : Point) :
+    (o.shifted v).act p = ((o.act p).1 + v.1, (o.act p).2.1 + v.2.1, (o.act p).2.2 + v.2.2) := by
+  simp only [Op.act, Op.shifted]
+  refine Prod.ext ?_ (Prod.ext ?_ ?_) <;> ring
+
+theorem row_ext_of_act {c c' : Coef} {t t' : Rat}
+    (h : ∀ p : Point, (c.1 : Rat) * p.1 + c.2.1 * p.2.1 + c.2.2 * p.2.2 + t = c'.1 * p.1 + c'.2.1 * p.2.1 + c'.2.2 * p.2.2 + t') :
+    (⟨c, t⟩ : Row) = ⟨c', t'⟩ := by
+  have h0 := h (0, 0, 0)
+  have hx := h (1, 0, 0)
+  have hy := h (0, 1, 0)
+  have hz := h (0, 0, 1)
+  simp only [mul_zero, mul_one, add_zero, zero_add] at h0 hx hy hz
+  subst h0
+  have ex : c.1 = c'.1 := by exact_mod_cast (add_right_cancel hx)
+  have ey : c.2.1 = c'.2.1 := by exact_mod_cast (add_right_cancel hy)
+  have ez : c.2.2 = c'.2.2 := by exact_mod_cast (add_right_cancel hz)
+  obtain ⟨a, b, d⟩ := c
+  obtain ⟨a', b', d'⟩ := c'
+  simp only at ex ey ez
+  subst ex ey ez
+  rfl
+
+/-- an operator is what it does to points: `act` determines matrix and translation (so `inverted` and `shifted`
+    are the only operators with the actions stated in `act_inverted` / `act_shifted`) -/
+theorem act_ext (a b : Op) (h : ∀ p, a.act p = b.act p) : a = b := by
+  obtain ⟨⟨c0, t0⟩, ⟨c1, t1⟩, ⟨c2, t2⟩⟩ := a
+  obtain ⟨⟨d0, u0⟩, ⟨d1, u1⟩, ⟨d2, u2⟩⟩ := b
+  have e0 : (⟨c0, t0⟩ : Row) = ⟨d0, u0⟩ := row_ext_of_act fun p => by
+    have := congrArg (fun q : Point => q.1) (h p); simpa [Op.act] using this
+  have e1 : (⟨c1, t1⟩ : Row) = ⟨d1, u1⟩ := row_ext_of_act fun p => by
+    have := congrArg (fun q : Point => q.2.1) (h p); simpa [Op.act] using this
+  have e2 : (⟨c2, t2⟩ : Row) = ⟨d2, u2⟩ := row_ext_of_act fun p => by
+    have := congrArg (fun q : Point => q.2.2) (h p); simpa [Op.act] using this
+  rw [e0, e1, e2]
+
+/-- **initOp_spec** — `SymmetryElement([t0, t1, t2], centric)` for three components of the grammar in any layout is the
+    operator they denote, followed by the inversion when `centric` is set. -/
+theorem initOp_spec (c0 c1 c2 : Component) (h0 : Valid c0 = true) (h1 : Valid c1 = true) (h2 : Valid c2 = true)
+    (t0 t1 t2 : List Char) (l0 : Relayout (print c0) t0) (l1 : Relayout (print c1) t1) (l2 : Relayout (print c2) t2)
+    (cen : Bool) :
+    initOp [t0, t1, t2] cen = .ok (if cen then (denoteOp c0 c1 c2).inverted else denoteOp c0 c1 c2) := by
+  simp only [initOp, parseOp, parse_denote c0 h0 t0 l0, parse_denote c1 h1 t1 l1, parse_denote c2 h2 t2 l2, opOfRows,
+    timesMinusOne_eq]
+  cases cen <;> simp [denoteOp, denoteRow, Op.inverted]
+
+/-- **reparse_spec** — printing an operator and parsing the text gives the same operator (object level) -/
+theorem reparse_spec (fmt : Rat → List Char) (o : Op) (hu : o.unit = true)
+    (hf : ∀ r ∈ o.rows, r.t ≠ 0 → FmtOk fmt r.t) : reparse fmt o = .ok o := by
+  have h := print_parse_id fmt o hu hf
+  simp only [Op.rows] at h
+  simp only [reparse, initOp, Op.rows, h, opOfRows]
+  simp
+
+/-- **applyLatt_spec** — `apply_latt_symm` gives the operator followed by the translation of its argument: the
+    matrix survives the detour through the printed text, the translation is the sum. -/
+theorem applyLatt_spec (fmt : Rat → List Char) (a l : Op) (hu : a.unit = true)
+    (hf : ∀ r ∈ a.rows, r.t ≠ 0 → FmtOk fmt r.t) : applyLatt fmt a l = .ok (a.shifted l.trans) := by
+  simp [applyLatt, reparse_spec fmt a hu hf, Op.shifted, Op.trans]
+
+/-- the calls of a history as the model sees them (texts) and as the property sees them (grammar terms) -/
+inductive HistRel : List Step → List SStep → Prop
+  | nil : HistRel [] []
+  | parse {ms ss} (c0 c1 c2 : Component) (t0 t1 t2 : List Char) (cen : Bool) :
+      Valid c0 = true → Valid c1 = true → Valid c2 = true →
+      Relayout (print c0) t0 → Relayout (print c1) t1 → Relayout (print c2) t2 → HistRel ms ss →
+      HistRel (.parse [t0, t1, t2] cen :: ms) (.parse c0 c1 c2 cen :: ss)
+  | given {ms ss} (o : Op) : o.unit = true → HistRel ms ss → HistRel (.given o :: ms) (.given o :: ss)
+  | latt {ms ss} (i j : Nat) : HistRel ms ss → HistRel (.latt i j :: ms) (.latt i j :: ss)
+  | reparse {ms ss} (i : Nat) : HistRel ms ss → HistRel (.reparse i :: ms) (.reparse i :: ss)
+  | observe {ms ss} (i : Nat) : HistRel ms ss → HistRel (.observe i :: ms) (.observe i :: ss)
+
+theorem specStep_sub {pool p : List Op} {s : SStep} (h : specStep pool s = some p) : ∀ o ∈ pool, o ∈ p := by
+  intro o ho
+  cases s with
+  | parse c0 c1 c2 cen => simp only [specStep, Option.some.injEq] at h; subst h; simp [ho]
+  | given g => simp only [specStep, Option.some.injEq] at h; subst h; simp [ho]
+  | latt i j =>
+    simp only [specStep] at h
+    split at h
+    · simp only [Option.some.injEq] at h; subst h; simp [ho]
+    · exact absurd h (by simp)
+  | reparse i =>
+    simp only [specStep] at h
+    split at h
+    · simp only [Option.some.injEq] at h; subst h; simp [ho]
+    · exact absurd h (by simp)
+  | observe i =>
+    simp only [specStep] at h
+    split at h
+    · simp only [Option.some.injEq] at h; subst h; exact ho
+    · exact absurd h (by simp)
+
+theorem specRun_sub {ss : List SStep} : ∀ {pool final : List Op}, specRun pool ss = some final → ∀ o ∈ pool, o ∈ final := by
+  induction ss with
+  | nil => intro pool final h o ho; simp only [specRun, Option.some.injEq] at h; subst h; exact ho
+  | cons s r ih =>
+    intro pool final h o ho
+    simp only [specRun] at h
+    split at h
+    · exact absurd h (by simp)
+    · rename_i p hp
+      exact ih h o (specStep_sub hp o ho)
+
+/-- **history_refines** — for every history of calls (parse with or without `centric`, operators handed in,
+    `apply_latt_symm` of any object with any object, re-parse of the printed text, printing/comparing in between), of
+    any length: the pool of objects the model ends with is the pool the property demands — each parsed object is the
+    operator its strings denote (inverted when centric), each copy is its source followed by the translation of the
+    argument, each re-parsed text is the operator that was printed, and nothing that is done later changes an object.
+    Hypotheses: the strings are components of the grammar in any layout (`HistRel`), operators handed in have entries
+    -1, 0, 1, indices refer to existing objects (`specRun … = some final`), and the number formatter writes every
+    non-zero translation that occurs as a numeral denoting it (`FmtOk`; `fmtFrac_ok` shows an instance for all
+    numbers, CPython's `str(float)`/`float()` pair is one on doubles). Also: every object has entries -1, 0, 1. -/
+theorem history_refines (fmt : Rat → List Char) {ms : List Step} {ss : List SStep} (h : HistRel ms ss) :
+    ∀ (pool final : List Op), (∀ o ∈ pool, o.unit = true) → specRun pool ss = some final →
+      (∀ o ∈ final, ∀ r ∈ o.rows, r.t ≠ 0 → FmtOk fmt r.t) →
+      runModel fmt pool ms = .ok final ∧ ∀ o ∈ final, o.unit = true := by
+  induction h with
+  | nil =>
+    intro pool final hu hs _
+    simp only [specRun, Option.some.injEq] at hs
+    subst hs
+    exact ⟨rfl, hu⟩
+  | parse c0 c1 c2 t0 t1 t2 cen h0 h1 h2 l0 l1 l2 _ ih =>
+    intro pool final hu hs hf
+    simp only [specRun, specStep] at hs
+    simp only [runModel, stepModel, initOp_spec c0 c1 c2 h0 h1 h2 t0 t1 t2 l0 l1 l2 cen]
+    refine ih _ final ?_ hs hf
+    intro o ho
+    rcases List.mem_append.1 ho with ho | ho
+    · exact hu o ho
+    · simp only [List.mem_singleton] at ho
+      subst ho
+      cases cen
+      · simpa using denoteOp_unit c0 c1 c2 h0 h1 h2
+      · simpa using inverted_unit _ (denoteOp_unit c0 c1 c2 h0 h1 h2)
+  | given g hg _ ih =>
+    intro pool final hu hs hf
+    simp only [specRun, specStep] at hs
+    simp only [runModel, stepModel]
+    refine ih _ final ?_ hs hf
+    intro o ho
+    rcases List.mem_append.1 ho with ho | ho
+    · exact hu o ho
+    · simp only [List.mem_singleton] at ho; subst ho; exact hg
+  | latt i j _ ih =>
+    intro pool final hu hs hf
+    simp only [specRun, specStep] at hs
+    split at hs
+    · exact absurd hs (by simp)
+    · rename_i p hp
+      split at hp
+      · rename_i a l ha hl
+        simp only [Option.some.injEq] at hp
+        subst hp
+        have hmem : a ∈ pool := List.mem_of_getElem? ha
+        have hfin : a ∈ final := specRun_sub hs a (by simp [hmem])
+        simp only [runModel, stepModel, ha, hl, applyLatt_spec fmt a l (hu a hmem) (hf a hfin)]
+        refine ih _ final ?_ hs hf
+        intro o ho
+        rcases List.mem_append.1 ho with ho | ho
+        · exact hu o ho
+        · simp only [List.mem_singleton] at ho; subst ho; exact shifted_unit _ _ (hu a hmem)
+      · exact absurd hp (by simp)
+  | reparse i _ ih =>
+    intro pool final hu hs hf
+    simp only [specRun, specStep] at hs
+    split at hs
+    · exact absurd hs (by simp)
+    · rename_i p hp
+      split at hp
+      · rename_i a ha
+        simp only [Option.some.injEq] at hp
+        subst hp
+        have hmem : a ∈ pool := List.mem_of_getElem? ha
+        have hfin : a ∈ final := specRun_sub hs a (by simp [hmem])
+        simp only [runModel, stepModel, ha, reparse_spec fmt a (hu a hmem) (hf a hfin)]
+        refine ih _ final ?_ hs hf
+        intro o ho
+        rcases List.mem_append.1 ho with ho | ho
+        · exact hu o ho
+        · simp only [List.mem_singleton] at ho; rw [ho]; exact hu a hmem
+      · exact absurd hp (by simp)
+  | observe i _ ih =>
+    intro pool final hu hs hf
+    simp only [specRun, specStep] at hs
+    split at hs
+    · exact absurd hs (by simp)
+    · rename_i p hp
+      split at hp
+      · rename_i hi
+        simp only [Option.some.injEq] at hp
+        subst hp
+        simp only [runModel, stepModel, hi, if_true]
+        exact ih _ final hu hs hf
+      · exact absurd hp (by simp)
+
+/-- **history_roundtrip** — every object of every such history survives print → parse: the printed text of each
+    object in the final pool parses back to exactly that object's rows (whatever was printed, copied or compared
+    before). -/
+theorem history_roundtrip (fmt : Rat → List Char) {ms : List Step} {ss : List SStep} (h : HistRel ms ss)
+    (final : List Op) (hs : specRun [] ss = some final)
+    (hf : ∀ o ∈ final, ∀ r ∈ o.rows, r.t ≠ 0 → FmtOk fmt r.t) :
+    runModel fmt [] ms = .ok final ∧
+      ∀ o ∈ final, parseOp (splitComma (toShelxl fmt o.rows)) = .ok o.rows ∧ reparse fmt o = .ok o := by
+  obtain ⟨hr, hu⟩ := history_refines fmt h [] final (by simp) hs hf
+  exact ⟨hr, fun o ho => ⟨print_parse_id fmt o (hu o ho) (hf o ho), reparse_spec fmt o (hu o ho) (hf o ho)⟩⟩
+
+/-- **history_eq** — `==` between any two objects of such a history follows the lattice rule on the operators the
+    property assigns to them (translations on a grid 1/N, tol ≤ 1/N as in `eq_iff_mod_lattice`). -/
+theorem history_eq (fmt : Rat → List Char) {ms : List Step} {ss : List SStep} (h : HistRel ms ss)
+    (final : List Op) (hs : specRun [] ss = some final)
+    (hf : ∀ o ∈ final, ∀ r ∈ o.rows, r.t ≠ 0 → FmtOk fmt r.t)
+    (tol : Rat) (N : Nat) (hN : 0 < N) (h0 : 0 < tol) (hT : tol * N ≤ 1) (hg : ∀ o ∈ final, o.onGrid N) :
+    ∃ pool, runModel fmt [] ms = .ok pool ∧ pool = final ∧
+      ∀ a ∈ pool, ∀ b ∈ pool, (eqModel tol a b = true ↔ LatticeEq a b) := by
+  obtain ⟨hr, _⟩ := history_refines fmt h [] final (by simp) hs hf
+  exact ⟨final, hr, rfl, fun a ha b hb => eq_iff_mod_lattice tol N a b hN h0 hT (hg a ha) (hg b hb)⟩
+
+/-- the exact formatter of the driver meets the hypothesis on the formatter for every number -/
+theorem fmtFrac_ok (x : Rat) : FmtOk fmtFrac x := by
+  obtain ⟨dn, hdn, hn, hnv⟩ := natDigits_spec x.num.natAbs
+  obtain ⟨dd, hdd, hd, hdv⟩ := natDigits_spec x.den
+  have hwf : (Numeral.frac dn dd).wf = true := by
+    simp [Numeral.wf, hdn, hdd, hdv, x.den_nz]
+  have hval : (Numeral.frac dn dd).value = (x.num.natAbs : Rat) / (x.den : Rat) := by
+    simp [Numeral.value, hnv, hdv]
+  have hxe : x = (x.num : Rat) / (x.den : Rat) := (Rat.num_div_den x).symm
+  by_cases hneg : x < 0
+  · refine ⟨.minus, .frac dn dd, hwf, ?_, ?_⟩
+    · simp [fmtFrac, hneg, hn, hd, digitChar_vals, Sign.chars, Numeral.chars]
+    · rw [hval]
+      have hnum : x.num < 0 := Rat.num_neg.2 hneg
+      have : ((x.num.natAbs : Nat) : Rat) = -(x.num : Rat) := by
+        rw [Nat.cast_natAbs, abs_of_neg hnum]; push_cast; rfl
+      rw [this]
+      conv_rhs => rw [hxe]
+      simp [Sign.toInt]
+      ring
+  · refine ⟨.none, .frac dn dd, hwf, ?_, ?_⟩
+    · simp [fmtFrac, hneg, hn, hd, digitChar_vals, Sign.chars, Numeral.chars]
+    · rw [hval]
+      have hnum : 0 ≤ x.num := Rat.num_nonneg.2 (not_lt.1 hneg)
+      have : ((x.num.natAbs : Nat) : Rat) = (x.num : Rat) := by
+        rw [Nat.cast_natAbs, abs_of_nonneg hnum]
+      rw [this]
+      conv_rhs => rw [hxe]
+      simp [Sign.toInt]
+
+/-- `history_refines` with the exact formatter: no hypothesis on the formatter is left -/
+theorem history_refines_frac {ms : List Step} {ss : List SStep} (h : HistRel ms ss) (final : List Op)
+    (hs : specRun [] ss = some final) : runModel fmtFrac [] ms = .ok final :=
+  (history_refines fmtFrac h [] final (by simp) hs (fun _ _ r _ _ => fmtFrac_ok r.t)).1
+
+/-! a concrete history inside the hypotheses: `o0 = -X, 1/2+Y, 1/2-Z`; `o1 = 1/2, 1/2, 1/2`; print `o0`;
+    `o2 = o0.apply_latt_symm(o1)`; `o3 =` the printed text of `o2`, parsed; `o4 = SymmetryElement(['x','y','z'], centric=True)` -/
+section example_history
+
+private def e0 : Component := [.term .minus .x]
+private def e1 : Component := [.num .none (.frac [1] [2]), .term .plus .y]
+private def e2 : Component := [.num .none (.frac [1] [2]), .term .minus .z]
+private def eh : Component := [.num .none (.frac [1] [2])]
+private def ex : Component := [.term .none .x]
+private def ey : Component := [.term .none .y]
+private def ez : Component := [.term .none .z]
+
+private def exSpec : List SStep :=
+  [.parse e0 e1 e2 false, .parse eh eh eh false, .observe 0, .latt 0 1, .reparse 2, .parse ex ey ez true]
+
+private def exModel : List Step :=
+  [.parse [print e0, print e1, print e2] false, .parse [print eh, print eh, print eh] false, .observe 0, .latt 0 1,
+   .reparse 2, .parse [print ex, print ey, print ez] true]
+
+private def exFinal : List Op :=
+  [⟨⟨(-1, 0, 0), 0⟩, ⟨(0, 1, 0), 1/2⟩, ⟨(0, 0, -1), 1/2⟩⟩,
+   ⟨⟨(0, 0, 0), 1/2⟩, ⟨(0, 0, 0), 1/2⟩, ⟨(0, 0, 0), 1/2⟩⟩,
+   ⟨⟨(-1, 0, 0), 1/2⟩, ⟨(0, 1, 0), 1⟩, ⟨(0, 0, -1), 1⟩⟩,
+   ⟨⟨(-1, 0, 0), 1/2⟩, ⟨(0, 1, 0), 1⟩, ⟨(0, 0, -1), 1⟩⟩,
+   ⟨⟨(-1, 0, 0), 0⟩, ⟨(0, -1, 0), 0⟩, ⟨(0, 0, -1), 0⟩⟩]
+
+example : runModel fmtFrac [] exModel = .ok exFinal := by
+  have h : HistRel exModel exSpec :=
+    .parse e0 e1 e2 _ _ _ false (by decide) (by decide) (by decide) (relayout_refl _) (relayout_refl _) (relayout_refl _)
+      (.parse eh eh eh _ _ _ false (by decide) (by decide) (by decide) (relayout_refl _) (relayout_refl _) (relayout_refl _)
+        (.observe 0 (.latt 0 1 (.reparse 2
+          (.parse ex ey ez _ _ _ true (by decide) (by decide) (by decide) (relayout_refl _) (relayout_refl _) (relayout_refl _)
+            .nil)))))
+  exact history_refines_frac h exFinal (by decide +kernel)
+
+end example_history
+
+/-! ### before the repair of `Matrix.__eq__` (fixes/C10_2): witnesses that the old comparison broke the property -/
+
+/-- `SymmetryElement(['-X','-Y','-Z'])` and `SymmetryElement(['X','Y','Z'], centric=True)` are the same operator,
+    the old `==` (rows compared as tuple vs list) said they differ; and the printed text of the centric one, parsed,
+    was not `==` to it. -/
+def legacyWitness : Bool :=
+  match initLegacy ["-X".toList, "-Y".toList, "-Z".toList] false, initLegacy ["X".toList, "Y".toList, "Z".toList] true with
+  | .ok a, .ok b =>
+    -- same operator, the repaired comparison agrees, the old one does not
+    decide (a.op = b.op) && latticeEqB a.op b.op && eqModel tolPy a.op b.op && !eqLegacy tolPy a b &&
+    -- print → parse of the centric operator: the same operator again, but not `==` under the old comparison
+    (match reparse fmtFrac b.op with
+     | .ok c => decide (c = b.op) && !eqLegacy tolPy ⟨c, false⟩ b
+     | .error _ => false)
+  | _, _ => false
+
+theorem eq_legacy_fails_on : legacyWitness = true := by decide +kernel
+
+/-- the full-strength statement the old comparison violated: `==` ↔ agreement modulo lattice translations -/
+theorem eq_legacy_not_iff :
+    ¬ ∀ a b : LegacyObj, (eqLegacy tolPy a b = true ↔ LatticeEq a.op b.op) := by
+  intro h
+  let o : Op := ⟨⟨(-1, 0, 0), 0⟩, ⟨(0, -1, 0), 0⟩, ⟨(0, 0, -1), 0⟩⟩
+  have h1 := (h ⟨o, false⟩ ⟨o, true⟩).2 ((latticeEqB_iff o o).1 (by decide +kernel))
+  exact absurd h1 (by decide +kernel)
 
 end Shelx.C10
